@@ -90,32 +90,36 @@ def isProd : Node → Bool
   | _ => false
 
 /-- `optional` of the three classes (prodparser.py:66-75, :181, :302); a `Choice` without the keyword
-is optional iff one of its members is -/
-def optional (tb : Table) (i : Nat) : Bool :=
-  match tb[i]? with
-  | none => false
-  | some (.prod _ fl _) => fl.optional
-  | some (.seq _ mn _) => mn == 0
-  | some (.choice _ (some b)) => b
-  | some (.choice ch none) => ch.any fun c => if _h : i < c ∧ c < tb.length then optional tb c else false
-termination_by tb.length - i
-decreasing_by all_goals omega
+is optional iff one of its members is. Children have larger indices than their parent (the tables are
+flattened in pre-order), so `tb.length` levels of recursion are enough; the first argument counts them. -/
+def optionalF (tb : Table) : Nat → Nat → Bool
+  | 0, _ => false
+  | d + 1, i =>
+    match tb[i]? with
+    | none => false
+    | some (.prod _ fl _) => fl.optional
+    | some (.seq _ mn _) => mn == 0
+    | some (.choice _ (some b)) => b
+    | some (.choice ch none) => ch.any fun c => i < c && optionalF tb d c
 
-/-- `matches(token)`; `none` is Python's `token=None`. Children must have larger indices than their parent
-(the tables are flattened in pre-order), which is what makes the recursion well-founded. -/
-def matchesN (tb : Table) (i : Nat) (tok : Option Tok) : Bool :=
-  match tb[i]? with
-  | none => false
-  | some (.prod acc _ _) =>
-      match tok with
-      | none => false                                   -- prodparser.py:342-343
-      | some t => acc.contains t.sym                     -- :344-345
-  | some (.choice ch _) =>                               -- :84-89
-      ch.any fun c => if _h : i < c ∧ c < tb.length then matchesN tb c tok else false
-  | some (.seq ch _ _) =>                                -- :155-165: first match wins, stop at the first non-optional
-      ch.foldr (fun c acc => if _h : i < c ∧ c < tb.length then (matchesN tb c tok || (optional tb c && acc)) else false) false
-termination_by tb.length - i
-decreasing_by all_goals omega
+def optional (tb : Table) (i : Nat) : Bool := optionalF tb tb.length i
+
+/-- `matches(token)`; `none` is Python's `token=None` -/
+def matchesF (tb : Table) (tok : Option Tok) : Nat → Nat → Bool
+  | 0, _ => false
+  | d + 1, i =>
+    match tb[i]? with
+    | none => false
+    | some (.prod acc _ _) =>
+        match tok with
+        | none => false                                   -- prodparser.py:342-343
+        | some t => acc.contains t.sym                     -- :344-345
+    | some (.choice ch _) =>                               -- :84-89
+        ch.any fun c => i < c && matchesF tb tok d c
+    | some (.seq ch _ _) =>                                -- :155-165: first match wins, stop at the first non-optional
+        ch.foldr (fun c acc => i < c && (matchesF tb tok d c || (optional tb c && acc))) false
+
+def matchesN (tb : Table) (i : Nat) (tok : Option Tok) : Bool := matchesF tb tok tb.length i
 
 /-! ## per-call grammar state (`_exhausted`, `_i`, `_round`, `_roundstarted`) -/
 
@@ -165,33 +169,33 @@ def choiceNext (tb : Table) (i : Nat) (ch : List Nat) (st : St) (tok : Option To
   else if tok.isSome then (.exhausted, st)                                 -- :117-118
   else (.none, st)
 
-/-- `Sequence.nextProd` (prodparser.py:189-237). `(mx - round, n - i)` decreases lexicographically. -/
+/-- `Sequence.nextProd` (prodparser.py:189-237). The `while self._round < self._max` loop leaves through a
+`return`/`raise` as soon as it meets a member that matches or is not optional. If it meets neither in
+`len(prods)+1` steps, every member is optional and none matches: the loop then only counts rounds up to
+`_max` (2^63-1 when unbounded — the cost of that is C01's subject) and ends with `_i = 0`, `_round = _max`,
+`_roundstarted = False`; the model answers with that final state directly. -/
 def seqNext (tb : Table) (id : Nat) (ch : List Nat) (mn mx : Nat) (st : St) (tok : Option Tok) : NP × St :=
-  go (getSeq st id).1 (getSeq st id).2.1 (getSeq st id).2.2
+  go (ch.length + 1) (getSeq st id).1 (getSeq st id).2.1 (getSeq st id).2.2
 where
-  go (i round : Nat) (started : Bool) : NP × St :=
-    if hr : round < mx then                                                 -- :197
-      if hi : i < ch.length then
-        let p := ch[i]
-        let started := if i == 0 then false else started                    -- :202-203
-        let i' := if i + 1 == ch.length then 0 else i + 1                   -- :206-209
-        let round' := if i + 1 == ch.length then round + 1 else round
-        if matchesN tb p tok then                                           -- :211-216
-          (.node p, reset tb (st.set id (.seq i' round' true)) p)
-        else if optional tb p then go i' round' started                     -- :218-219
-        else if round < mn || started then (.missing, st.set id (.seq i' round' started))   -- :221-224
-        else if tok.isNone then                                             -- :226-230
-          (if started then .missing else .done, st.set id (.seq i' round' started))
-        else (.noMatch, st.set id (.seq i' round' started))                 -- :232-233
-      else (.none, st.set id (.seq i round started))   -- not reachable: `_i < _prodcount` is an invariant
-    else
-      (if tok.isSome then .exhausted else .none, st.set id (.seq i round started))   -- :235-236
-  termination_by (mx - round, ch.length - i)
-  decreasing_by
-    simp_wf
-    by_cases h : i + 1 = ch.length
-    · simp [h]; left; omega
-    · simp [h]; right; omega
+  go : Nat → Nat → Nat → Bool → NP × St
+    | 0, _, _, _ => (if tok.isSome then .exhausted else .none, st.set id (.seq 0 mx false))
+    | fuel + 1, i, round, started =>
+      if round < mx then                                                      -- :197
+        match ch[i]? with
+        | some p =>
+          let started := if i == 0 then false else started                    -- :202-203
+          let i' := if i + 1 == ch.length then 0 else i + 1                   -- :206-209
+          let round' := if i + 1 == ch.length then round + 1 else round
+          if matchesN tb p tok then                                           -- :211-216
+            (.node p, reset tb (st.set id (.seq i' round' true)) p)
+          else if optional tb p then go fuel i' round' started                -- :218-219
+          else if round < mn || started then (.missing, st.set id (.seq i' round' started))   -- :221-224
+          else if tok.isNone then                                             -- :226-230
+            (if started then .missing else .done, st.set id (.seq i' round' started))
+          else (.noMatch, st.set id (.seq i' round' started))                 -- :232-233
+        | none => (.none, st.set id (.seq i round started))   -- not reachable: `_i < _prodcount` is an invariant
+      else
+        (if tok.isSome then .exhausted else .none, st.set id (.seq i round started))   -- :235-236
 
 def nextProd (tb : Table) (i : Nat) (st : St) (tok : Option Tok) : NP × St :=
   match tb[i]? with
